@@ -1,6 +1,8 @@
 """Per-property plans: which model-checking configurations and which workloads decide a property,
 and which named conjuncts of the trace specification are attributed to it."""
 from . import gen
+import os
+VERIF_ROOT = os.environ.get("VERIF_ROOT") or os.path.dirname(os.path.dirname(os.path.dirname(os.path.abspath(__file__))))
 
 IDSTEP = 100000   # key/value id namespace per history (several histories share one TLC run)
 
@@ -228,7 +230,7 @@ def wl_golden(tier, seed):
     i = 0
     for kt in gen.KTS:
         for kind in gen.GOLDEN_KINDS:
-            d = "/verif/golden/%s-%s" % (kt, kind)
+            d = "%s/golden/%s-%s" % (VERIF_ROOT, kt, kind)
             exp = json.load(open(d + "/expected.json"))
             checks.append(gen.gen_golden_check(seed * 1000 + i, d, exp, nops=60 if tier == "quick" else 2000, name="golden_%s_%s" % (kt, kind)))
             rewrites.append(gen.gen_golden_rewrite(kind, kt, d))
